@@ -831,6 +831,9 @@ func Repeat(env envs.Environment, text *types.XText, count int) types.XValue {
 	if count < 0 {
 		return types.NewXErrorf("must be called with a positive integer, got %d", count)
 	}
+	if text.Empty() {
+		return types.XTextEmpty
+	}
 
 	var output bytes.Buffer
 	for j := 0; j < count; j++ {
